@@ -101,6 +101,25 @@ def identify_edges_rules(cx):
         cx.ob('EXPR', 'identify_edges:face_edges', okp, 'face_edges[f] = [index(key(edge0)), index(key(edge1)), index(key(edge2))] of the same face chunk, in order')
 
 
+def boundary_loops_rules(cx):
+    """every walk that is started is recorded (shared with C20: 'exactly one boundary loop' is counted on this list)"""
+    b = cx.fn(f'{ED}::boundary_loops')
+    if not b:
+        return
+    loops = b.loops()
+    outer = max(loops, key=lambda lp: len(lp[1])) if loops else None
+    pushes = [(s_, d) for s_, d in cx.push_events(b) if outer and s_.bb in outer[1] and not any(s_.bb in lp[1] for lp in loops if lp is not outer)]
+    rec = [(s_, d) for s_, d in pushes if find('(call Vec::remove _ _)', d) is None]
+    ok = outer is not None and len(rec) == 1 and all(b.dominates(rec[0][0].bb, x) for x in outer[2]) and \
+        not any(find('(len _)', a) is not None for a, p in cx.guards(b, rec[0][0].bb))
+    cx.ob('ORDER', 'boundary_loops:every-walk-recorded', ok,
+          'every boundary walk that is started is appended to the result, whatever its length (a triangle hole is a boundary loop of three vertices): the append is on every cycle of the outer loop',
+          where=b.file, found=f'{len(rec)} recording push(es) in the outer loop')
+    walk = [(s_, d) for s_, d in cx.push_events(b) if any(s_.bb in lp[1] for lp in loops if lp is not outer)]
+    cx.ob('EXPR', 'boundary_loops:walk', len(walk) == 1 and find('(call HashMap::remove _ _)', walk[0][1]) is not None,
+          'each step appends the successor that was just consumed from the map', where=b.file)
+
+
 def insert_rule(cx, fname, floor):
     b = cx.fn(fname)
     if b is None:
@@ -168,6 +187,7 @@ def run(cx):
               found='; '.join(show(d) for _, d in rets))
 
     identify_edges_rules(cx)
+    boundary_loops_rules(cx)
     b = cx.fn(f'{ED}::naive_edges')
     if b:
         # three edges per face, in this order, whether pushed in a loop or produced by flat_map over an array literal
